@@ -428,3 +428,40 @@ Qed.
 Lemma asset_candidates_iff assets uri a :
   In a (asset_candidates assets uri) <-> find_asset_rel assets uri (Some a).
 Proof. unfold asset_candidates. rewrite filter_In, find_asset_rel_some. reflexivity. Qed.
+
+(** * After the repairs (fix commits 5fe544f, a92686d) *)
+
+(** A segment path is matched by at most one representation of a well-formed set. *)
+Theorem anchored_at_most_one reps seg r r' d d' :
+  reps_wf reps -> In r reps -> In r' reps ->
+  media_match_anchored (r_pre r) (r_suf r) seg = Some d ->
+  media_match_anchored (r_pre r') (r_suf r') seg = Some d' ->
+  r_id r = r_id r' /\ d = d'.
+Proof.
+  intros (WS & WN & WI) I I' M M'. rewrite (WS r' r I' I) in M'.
+  destruct (anchored_match_unique _ _ _ _ _ _ (WN r I) (WN r' I') M M') as [Ep Ed].
+  split; [apply WI; auto|exact Ed].
+Qed.
+
+(** The hypothesis on the templates is needed: with a template that puts nothing between
+    $RepresentationID$ and $Number$, ids "a" and "a1" both match a12.m4s also with the repaired
+    pattern (read as number 12 of "a" or number 2 of "a1"). *)
+Theorem find_rep_anchored_nosep_refuted :
+  let reps := [mkRep (str_of "a") (str_of "a") (str_of ".m4s"); mkRep (str_of "a1") (str_of "a1") (str_of ".m4s")] in
+  let seg := str_of "a12.m4s" in
+  find_rep_rel media_match_anchored reps seg (Some (str_of "a", 12)) /\
+  find_rep_rel media_match_anchored reps seg (Some (str_of "a1", 2)).
+Proof.
+  cbv zeta. split.
+  - eexists. split; [apply Permutation_refl|vm_compute; reflexivity].
+  - eexists. split; [apply perm_swap|vm_compute; reflexivity].
+Qed.
+
+(** The result of the repaired findAsset: a matching path of maximal length, None iff none matches. *)
+Theorem find_asset_longest_max order uri :
+  match find_asset_longest order uri with
+  | None => forall b, In b order -> asset_matches uri b = false
+  | Some a => In a order /\ asset_matches uri a = true /\
+              forall b, In b order -> asset_matches uri b = true -> (length b <= length a)%nat
+  end.
+Proof. exact (find_asset_longest_spec order uri). Qed.
